@@ -44,7 +44,9 @@ def gen_case(rng, tier):
     else:
         gene = {"kind": "shipped", "name": rng.choice(cfg["shipped"]), "genome": "hg19"}
     return {"gene": gene, "seed": rng.randint(0, 10**9), "mode": mode,
-            "depth": rng.choice([6, 8, 10, 20]), "max_copies": rng.choice([1, 2, 2, 3]), "phase": rng.random() < 0.3}
+            "depth": rng.choice([6, 8, 10, 20]), "max_copies": rng.choice([1, 2, 2, 3]), "phase": rng.random() < 0.3,
+            # how many refinements per candidate are asked for (max_minor_solutions)
+            "max_solutions": rng.choice([1, 1, 1, 2, 3])}
 
 
 def gen_plan(rng, tier, i, seed):
@@ -533,8 +535,8 @@ def run_case(case, seg, viol, stats, sample):
             ccn, cpl = companion
             comp = MajorSolution(0, Counter(SolvedAllele(gene, ma) for ma, mi in cpl), CNSolution(gene, 0, ccn), [])
             majors = [comp, major] if companion_first else [major, comp]
-        allsols = MI.estimate_minor(gene, cov, majors, "cbc")
-        sols = [x for x in allsols if x.major_solution is major]
+        allsols = MI.estimate_minor(gene, cov, majors, "cbc", max_solutions=case.get("max_solutions", 1))
+        sols = sorted((x for x in allsols if x.major_solution is major), key=lambda x: x.score)  # best first
         # the evidence the model saw: aldy's own filters, re-applied on a pristine catalogue
         # (C15 owns the filters); considered variants are pooled over the candidates of the call
         mutations = set()
@@ -567,10 +569,13 @@ def run_case(case, seg, viol, stats, sample):
         return sols, ev_
 
     def judge_solution(sols, ev, mode_name):
-        if len(sols) > 1:
+        if len(sols) > case.get("max_solutions", 1):
             viol.append({"clause": "more refinements than requested", "detail": dict(detail0, solver=mode_name)})
         res = []
-        for s in sols[:1]:
+        # (with several refinements requested every one is judged by the rules and its own score; the best of
+        # them is the one the optimality clauses speak about)
+        best_first = sorted(sols, key=lambda x: x.score)
+        for si_, s in enumerate(best_first):
             stats["solutions"] += 1
             assign = _assignment(ev, s)
             d = dict(detail0, solver=mode_name, score=s.score,
@@ -584,7 +589,8 @@ def run_case(case, seg, viol, stats, sample):
                 stats["added"] += 1
             if any(a.missing for a in s.solution):
                 stats["missing"] += 1
-            res.append((assign, s.score))
+            if si_ == 0:
+                res.append((assign, s.score))
             if case["phase"]:
                 stats["objective_skipped"] += 1
                 continue
